@@ -50,9 +50,10 @@ Definition pacer_schedule (p : pacer) (srtt cw mtu newtok : Z) : pacer * Z :=
 (* ---- rtt inputs ---- *)
 Record rin := mkrin { i_ld : Z; i_srtt : Z; i_rttvar : Z; i_latest : Z; i_has : Z; i_newtok : Z }.
 
-(* Rtt::base_pto = smoothed_rtt + max(4*rttvar, 1ms) * (1 << pto_count)   [as coded] *)
+(* Rtt::base_pto = (smoothed_rtt + max(4*rttvar, 1ms)) * (1 << pto_count)
+   [as coded after `fix:` b1af7bb; before it only the max(..) term was multiplied — finding F17] *)
 Definition base_pto (ri : rin) (pto_count : Z) : Z :=
-  i_srtt ri + Z.max (4 * i_rttvar ri) GRANULARITY * 2 ^ pto_count.
+  (i_srtt ri + Z.max (4 * i_rttvar ri) GRANULARITY) * 2 ^ pto_count.
 
 (* ---- controller ---- *)
 Record cc := mkcc {
@@ -200,7 +201,7 @@ Definition on_packet_sent (c : cc) (ri : rin) (e pn : Z) (elic infl : bool) (byt
 (* CongestionController::discard_epoch *)
 Definition discard_epoch (c : cc) (ri : rin) (e : Z) : cc :=
   let '(s, r) := space_discard (c_sp c e) (c_reno c) in
-  let c1 := with_reno_sp c r e s in
+  let c1 := with_need (with_reno_sp c r e s) e 0 in
   set_loss_detection_timer (with_pto_count (with_timer c1 None false) 0) ri.
 
 (* CongestionController::on_ack_rcvd ; returns the may_loss report and the persistent flag *)
@@ -237,10 +238,19 @@ Definition on_loss_detection_timeout (c : cc) (ri : rin) : cc * list (Z * Z) * b
       (set_loss_detection_timer (with_pto_count c1 (c_pto_count c1 + 1)) ri, [], false)
   end.
 
-(* CongestionController::send_quota *)
+(* a PTO probe has been requested and not yet sent *)
+Definition probe_pending (c : cc) : bool := (0 <? c_need c 0) || (0 <? c_need c 1) || (0 <? c_need c 2).
+
+(* room left in the congestion window; a pending probe may use one datagram beyond it (RFC 9002 7.5) *)
+Definition window_room (c : cc) : Z :=
+  let room := Z.max 0 (cwnd (c_reno c) - bif (c_reno c)) in
+  if probe_pending c then Z.max room (c_mtu c) else room.
+
+(* CongestionController::send_quota = min(pacer tokens, window room)
+   [as coded after the `fix:` for F16; before it the quota was the pacer bucket alone] *)
 Definition cc_send_quota (c : cc) (ri : rin) : cc * Z :=
   let '(p, q) := pacer_schedule (c_pacer c) (i_srtt ri) (cwnd (c_reno c)) (c_mtu c) (i_newtok ri) in
-  (with_pacer c p (c_pending_burst c), q).
+  (with_pacer c p (c_pending_burst c), Z.min q (window_room c)).
 
 (* ------------------------------------------------------------------ *)
 (* Operations of the correspondence stream `cc` *)
